@@ -66,6 +66,7 @@ impl SenderFlowState {
     pub fn check_s(&mut self, item: u32) -> (r: Result<Tag, InsufficientCredit>) ensures final(self).checks@ == old(self).checks@ + 1 { unimplemented!() }
 
 //@@ fn file=fe2o3-amqp/src/link/state.rs impl=`impl Consume for SenderFlowState` name=consume
+//@@ attr #[verifier::loop_isolation(false)]
 //@@ awaitcall
 //@@ selfmut
 //@@ attr #[verifier::exec_allows_no_decreases_clause]
